@@ -185,7 +185,241 @@ class EarlyReturnElse(ast.NodeTransformer):
         return node
 
 
+class AnnotateAssign(ast.NodeTransformer):
+    """`x = v` -> `x: object = v` for single Name / self-attribute targets (not names declared global/nonlocal)."""
+
+    def visit_FunctionDef(self, node):
+        decl = set()
+        for x in ast.walk(node):
+            if isinstance(x, (ast.Global, ast.Nonlocal)):
+                decl.update(x.names)
+        outer = getattr(self, 'decl', set())
+        self.decl = outer | decl
+        self.generic_visit(node)
+        self.decl = outer
+        return node
+
+    def visit_Assign(self, node):
+        if len(node.targets) == 1:
+            t = node.targets[0]
+            if (isinstance(t, ast.Name) and t.id not in getattr(self, 'decl', set())) or \
+                    (isinstance(t, ast.Attribute) and isinstance(t.value, ast.Name) and t.value.id in ('self', 'cls')):
+                return ast.copy_location(ast.AnnAssign(target=t, annotation=ast.Name(id='object', ctx=ast.Load()), value=node.value,
+                                                       simple=1 if isinstance(t, ast.Name) else 0), node)
+        return node
+
+
+class KeysToIn(ast.NodeTransformer):
+    """`k in d.keys()` -> `k in d`, `not a in b` -> `a not in b`, `for k in d.keys()` -> `for k in d`."""
+
+    def visit_Compare(self, node):
+        self.generic_visit(node)
+        if len(node.ops) == 1 and isinstance(node.ops[0], (ast.In, ast.NotIn)):
+            c = node.comparators[0]
+            if isinstance(c, ast.Call) and isinstance(c.func, ast.Attribute) and c.func.attr == 'keys' and not c.args:
+                node.comparators[0] = c.func.value
+        return node
+
+    def visit_UnaryOp(self, node):
+        self.generic_visit(node)
+        if isinstance(node.op, ast.Not) and isinstance(node.operand, ast.Compare) and len(node.operand.ops) == 1 \
+                and isinstance(node.operand.ops[0], ast.In):
+            return ast.copy_location(ast.Compare(left=node.operand.left, ops=[ast.NotIn()], comparators=node.operand.comparators), node)
+        return node
+
+    def visit_For(self, node):
+        self.generic_visit(node)
+        c = node.iter
+        if isinstance(c, ast.Call) and isinstance(c.func, ast.Attribute) and c.func.attr == 'keys' and not c.args:
+            node.iter = c.func.value
+        return node
+
+
+class GuardClause(ast.NodeTransformer):
+    """A function ending in `if c: BODY` (no else) -> `if not c: return` followed by BODY."""
+
+    def visit_FunctionDef(self, node):
+        self.generic_visit(node)
+        if any(isinstance(x, (ast.Yield, ast.YieldFrom)) for x in ast.walk(node)):
+            return node
+        last = node.body[-1]
+        if isinstance(last, ast.If) and not last.orelse and len(last.body) >= 2:
+            g = ast.If(test=ast.UnaryOp(op=ast.Not(), operand=last.test), body=[ast.Return(value=None)], orelse=[])
+            node.body = node.body[:-1] + [ast.copy_location(g, last)] + last.body
+        return node
+
+
+class TempCond(ast.NodeTransformer):
+    """`if <compound test>:` -> `_cond = <test>` then `if _cond:` (top of an if-chain only)."""
+
+    def _block(self, body):
+        out = []
+        for s in body:
+            if isinstance(s, ast.If) and isinstance(s.test, (ast.BoolOp, ast.Compare, ast.UnaryOp)) \
+                    and not any(isinstance(x, ast.NamedExpr) for x in ast.walk(s.test)):
+                self.k = getattr(self, 'k', 0) + 1
+                nm = f"_cond{self.k}"
+                out.append(ast.copy_location(ast.Assign(targets=[ast.Name(id=nm, ctx=ast.Store())], value=s.test), s))
+                s.test = ast.Name(id=nm, ctx=ast.Load())
+            out.append(s)
+        return out
+
+    def generic_visit(self, node):
+        super().generic_visit(node)
+        if isinstance(node, (ast.FunctionDef, ast.For, ast.While, ast.With, ast.Try)):
+            node.body = self._block(node.body)
+        elif isinstance(node, ast.If):
+            node.body = self._block(node.body)
+            if not (len(node.orelse) == 1 and isinstance(node.orelse[0], ast.If)):
+                node.orelse = self._block(node.orelse)
+        return node
+
+
+class CompToLoop(ast.NodeTransformer):
+    """`x = [e for v in it if c]` / `return [..]` (one generator, in a function body) -> an explicit loop with append."""
+
+    def _expand(self, comp, name, at):
+        self.k = getattr(self, 'k', 0) + 1
+        g = comp.generators[0]
+        ren = {n.id: f"{n.id}_l{self.k}" for n in ast.walk(g.target) if isinstance(n, ast.Name)}
+
+        class R(ast.NodeTransformer):
+            def visit_Name(s, n):
+                if n.id in ren:
+                    return ast.copy_location(ast.Name(id=ren[n.id], ctx=n.ctx), n)
+                return n
+        tgt = R().visit(copy.deepcopy(g.target))
+        elt = R().visit(copy.deepcopy(comp.elt))
+        ifs = [R().visit(copy.deepcopy(i)) for i in g.ifs]
+        app = ast.Expr(value=ast.Call(func=ast.Attribute(value=ast.Name(id=name, ctx=ast.Load()), attr='append', ctx=ast.Load()), args=[elt], keywords=[]))
+        body = [app]
+        if ifs:
+            test = ifs[0] if len(ifs) == 1 else ast.BoolOp(op=ast.And(), values=ifs)
+            body = [ast.If(test=test, body=[app], orelse=[])]
+        init = ast.Assign(targets=[ast.Name(id=name, ctx=ast.Store())], value=ast.List(elts=[], ctx=ast.Load()))
+        loop = ast.For(target=tgt, iter=g.iter, body=body, orelse=[])
+        return [ast.copy_location(init, at), ast.copy_location(loop, at)]
+
+    def _ok(self, v):
+        return isinstance(v, ast.ListComp) and len(v.generators) == 1 and not v.generators[0].is_async \
+            and not any(isinstance(x, (ast.Lambda, ast.ListComp, ast.GeneratorExp, ast.DictComp, ast.SetComp, ast.NamedExpr))
+                        for y in [v.elt] + v.generators[0].ifs for x in ast.walk(y))
+
+    def _block(self, body):
+        out = []
+        for s in body:
+            if isinstance(s, ast.Assign) and len(s.targets) == 1 and isinstance(s.targets[0], ast.Name) and self._ok(s.value) \
+                    and not any(isinstance(x, ast.Name) and x.id == s.targets[0].id for x in ast.walk(s.value)):
+                out.extend(self._expand(s.value, s.targets[0].id, s))
+            elif isinstance(s, ast.Return) and s.value is not None and self._ok(s.value):
+                self.k = getattr(self, 'k', 0) + 1
+                nm = f"_out{self.k}"
+                out.extend(self._expand(s.value, nm, s))
+                out.append(ast.copy_location(ast.Return(value=ast.Name(id=nm, ctx=ast.Load())), s))
+            else:
+                out.append(s)
+        return out
+
+    def generic_visit(self, node):
+        super().generic_visit(node)
+        for f in ('body', 'orelse', 'finalbody'):
+            b = getattr(node, f, None)
+            if isinstance(b, list) and b and isinstance(b[0], ast.stmt) and not isinstance(node, (ast.Module, ast.ClassDef)):
+                setattr(node, f, self._block(b))
+        return node
+
+
+class TernaryToIf(ast.NodeTransformer):
+    """`x = a if c else b` / `return a if c else b` -> an if statement."""
+
+    def _block(self, body):
+        out = []
+        for s in body:
+            if isinstance(s, ast.Assign) and isinstance(s.value, ast.IfExp):
+                a = ast.Assign(targets=copy.deepcopy(s.targets), value=s.value.body)
+                b = ast.Assign(targets=copy.deepcopy(s.targets), value=s.value.orelse)
+                out.append(ast.copy_location(ast.If(test=s.value.test, body=[a], orelse=[b]), s))
+            elif isinstance(s, ast.Return) and isinstance(s.value, ast.IfExp):
+                out.append(ast.copy_location(ast.If(test=s.value.test, body=[ast.Return(value=s.value.body)],
+                                                    orelse=[ast.Return(value=s.value.orelse)]), s))
+            else:
+                out.append(s)
+        return out
+
+    def generic_visit(self, node):
+        super().generic_visit(node)
+        for f in ('body', 'orelse', 'finalbody'):
+            b = getattr(node, f, None)
+            if isinstance(b, list) and b and isinstance(b[0], ast.stmt) and not isinstance(node, (ast.Module, ast.ClassDef)):
+                setattr(node, f, self._block(b))
+        return node
+
+
+class ItemsToKeys(ast.NodeTransformer):
+    """`for k, v in d.items(): BODY` -> `for k in d: v = d[k]; BODY` (d a plain attribute chain or name)."""
+
+    def visit_For(self, node):
+        self.generic_visit(node)
+        c = node.iter
+        if isinstance(c, ast.Call) and isinstance(c.func, ast.Attribute) and c.func.attr == 'items' and not c.args \
+                and isinstance(node.target, ast.Tuple) and len(node.target.elts) == 2 and all(isinstance(e, ast.Name) for e in node.target.elts):
+            d = c.func.value
+            x = d
+            while isinstance(x, ast.Attribute):
+                x = x.value
+            if isinstance(x, ast.Name):
+                k, v = node.target.elts
+                get = ast.Assign(targets=[ast.Name(id=v.id, ctx=ast.Store())],
+                                 value=ast.Subscript(value=copy.deepcopy(d), slice=ast.Name(id=k.id, ctx=ast.Load()), ctx=ast.Load()))
+                node.target = ast.Name(id=k.id, ctx=ast.Store())
+                node.iter = d
+                node.body = [ast.copy_location(get, node)] + node.body
+        return node
+
+
+class ForToWhile(ast.NodeTransformer):
+    """`for i in range(a, b): BODY` (no continue / else, i not assigned in BODY, i not read after the loop) -> counting while-loop."""
+
+    def visit_FunctionDef(self, node):
+        self.generic_visit(node)
+        self.fn = node
+        node.body = self._block(node.body, node)
+        return node
+
+    def _block(self, body, fn):
+        out = []
+        for idx, s in enumerate(body):
+            for f in ('body', 'orelse'):
+                b = getattr(s, f, None)
+                if isinstance(b, list) and b and isinstance(b[0], ast.stmt) and not isinstance(s, (ast.FunctionDef, ast.ClassDef)):
+                    setattr(s, f, self._block(b, fn))
+            if isinstance(s, ast.For) and not s.orelse and isinstance(s.target, ast.Name) and isinstance(s.iter, ast.Call) \
+                    and isinstance(s.iter.func, ast.Name) and s.iter.func.id == 'range' and len(s.iter.args) in (1, 2) and not s.iter.keywords \
+                    and all(isinstance(a, (ast.Name, ast.Constant, ast.Attribute)) for a in s.iter.args) \
+                    and not any(isinstance(x, ast.Continue) for x in ast.walk(s)) \
+                    and not any(isinstance(x, ast.Name) and x.id == s.target.id and isinstance(x.ctx, ast.Store) for b in s.body for x in ast.walk(b)):
+                i = s.target.id
+                later = [x for t in ast.walk(fn) for x in [t] if isinstance(x, ast.Name) and x.id == i and getattr(x, 'lineno', 0) > s.end_lineno]
+                bound_names = {x.id for a in s.iter.args for x in ast.walk(a) if isinstance(x, ast.Name)}
+                writes = {x.id for b in s.body for x in ast.walk(b) if isinstance(x, ast.Name) and isinstance(x.ctx, ast.Store)}
+                has_attr_bound = any(isinstance(a, ast.Attribute) for a in s.iter.args)
+                if not later and not (bound_names & writes) and not has_attr_bound:
+                    lo = s.iter.args[0] if len(s.iter.args) == 2 else ast.Constant(value=0)
+                    hi = s.iter.args[-1]
+                    init = ast.Assign(targets=[ast.Name(id=i, ctx=ast.Store())], value=lo)
+                    inc = ast.AugAssign(target=ast.Name(id=i, ctx=ast.Store()), op=ast.Add(), value=ast.Constant(value=1))
+                    w = ast.While(test=ast.Compare(left=ast.Name(id=i, ctx=ast.Load()), ops=[ast.Lt()], comparators=[hi]), body=s.body + [inc], orelse=[])
+                    out.append(ast.copy_location(init, s))
+                    out.append(ast.copy_location(w, s))
+                    continue
+            out.append(s)
+        return out
+
+
 TRANSFORMS = {
+    'ternary-to-if': TernaryToIf, 'items-to-keys': ItemsToKeys, 'for-to-while': ForToWhile,
+    'keys-to-in': KeysToIn, 'guard-clause': GuardClause, 'temp-cond': TempCond, 'comp-to-loop': CompToLoop,
+    'annotate-assign': AnnotateAssign,
     'rename-locals': RenameLocals, 'swap-if-else': SwapIfElse, 'unparse': ElifToNested, 'de-morgan': DeMorgan, 'flip-compare': FlipCompare,
     'aug-to-plain': AugToPlain, 'temp-return': TempReturn, 'drop-else-after-exit': EarlyReturnElse,
 }
